@@ -7,6 +7,7 @@ MCEnergies == {<<-5, 2>>, <<3, 4>>, <<4, 1>>}
 MCSlopes2 == {<<1, 2>>, <<-2, 1>>}
 MCIcpts2 == {<<0, 1>>, <<5, 1>>}
 MCEnergies2 == {<<-1, 1>>, <<3, 2>>}
+MCEnergies1 == {<<-1, 1>>}
 MCExtParts == {Part("float", <<-1, 1>>), Part("species", <<3, 2>>)}
 MCExtPartsBig == {Part("float", <<-1, 1>>), Part("species", <<3, 2>>), Part("float", <<3, 2>>), Part("species", <<-1, 1>>)}
 =============================================================================
